@@ -991,3 +991,47 @@ package my_pkg is new work.generic_pkg;
     let diagnostics = builder.analyze();
     check_no_diagnostics(&diagnostics);
 }
+
+#[test]
+fn references_through_instance_include_package_body() {
+    let mut builder = LibraryBuilder::new();
+    let code = builder.code(
+        "libname",
+        "
+package gp is
+  generic (n : integer);
+  function gf(x : integer) return integer;
+  constant gc : integer;
+end package;
+
+package body gp is
+  function gf(x : integer) return integer is
+  begin
+    return x + n;
+  end function gf;
+  constant gc : integer := gf(1);
+end package body;
+
+package gi is new work.gp generic map (n => 1);
+
+package user is
+  constant k : integer := work.gi.gf(1) + work.gi.gc;
+end package;
+  ",
+    );
+
+    let (root, diagnostics) = builder.get_analyzed_root();
+    check_no_diagnostics(&diagnostics);
+
+    for (name, count) in [("gf", 5), ("gc", 3)] {
+        let references: Vec<_> = (1..=count).map(|idx| code.s(name, idx).pos()).collect();
+        for idx in 1..=count {
+            let ent = root
+                .search_reference(code.source(), code.s(name, idx).start())
+                .unwrap();
+            assert_eq_unordered(&root.find_all_references(ent), &references);
+            // The language server searches for the references of the declaration
+            assert_eq_unordered(&root.find_all_references(ent.declaration()), &references);
+        }
+    }
+}
